@@ -223,7 +223,7 @@ def group_gen(cfg, stmts, nss, groups):
     for n in groups:
         chunk = stmts[pos:pos + n]
         pos += n
-        yield make_container(cfg, chunk, nss if first else [])
+        yield make_container(cfg, chunk, nss if (first or cfg.get("ns_all_groups")) else [])
         first = False
 
 
